@@ -115,17 +115,26 @@ func (tree *Tree[T]) Add(pattern string, h T, ms []types.Middleware[T], methods 
 		defer tree.locker.Unlock()
 	}
 
-	n, err := tree.getNode(pattern)
+	if len(methods) == 0 {
+		methods = AnyMethods
+	}
+
+	// 在改变树结构之前验证语法和 methods，保证出错时不会留下任何改动。
+	segs, err := tree.interceptors.Split(pattern)
+	if err != nil {
+		return err
+	}
+	if err := tree.checkMethods(tree.Find(pattern), methods...); err != nil {
+		return err
+	}
+
+	n, err := tree.node.getNode(segs)
 	if err != nil {
 		return err
 	}
 
 	if n.handlers == nil {
 		n.handlers = make(map[string]T, handlersSize)
-	}
-
-	if len(methods) == 0 {
-		methods = AnyMethods
 	}
 	return n.addMethods(h, pattern, ms, methods...)
 }
@@ -205,15 +214,6 @@ func (tree *Tree[T]) Remove(pattern string, methods ...string) {
 	}
 
 	tree.buildMethods(-1, methods...)
-}
-
-// 获取指定的节点，若节点不存在，则在该位置生成一个新节点。
-func (tree *Tree[T]) getNode(pattern string) (*node[T], error) {
-	segs, err := tree.interceptors.Split(pattern)
-	if err != nil {
-		return nil, err
-	}
-	return tree.node.getNode(segs)
 }
 
 // 此方法主要用于将 locker 的使用范围减至最小。
